@@ -4,6 +4,7 @@ usage: tools/dbg.py C05 <index|replay.json> [VERIF_SEED]"""
 import importlib, json, os, shutil, sys
 sys.path.insert(0, os.path.dirname(os.path.dirname(os.path.abspath(__file__))))
 os.environ.setdefault("PYTHONHASHSEED", "0")
+os.environ["MOKAPOT_VERIF"] = "1"
 for _v in ("OMP_NUM_THREADS", "OPENBLAS_NUM_THREADS", "MKL_NUM_THREADS", "NUMBA_NUM_THREADS"):
     os.environ[_v] = "1"
 sys.path.insert(0, os.environ.get("VERIF_REPO", "/repo"))
